@@ -254,3 +254,30 @@ func VerifMinMaxIdeal() (lo, hi *big.Int) {
 
 // VerifBitMask returns a copy of bitMask(nBits).
 func VerifBitMask(nBits int) *big.Int { return new(big.Int).Set(bitMask(nBits)) }
+
+// VerifIOAdvance is one row of ioMethodAdvances: the number of bytes that the
+// checker demands (as a "recv.length() >= advance" fact) before the unchecked
+// peek / poke / write_fast method may be called, and whether the call consumes
+// them (update).
+type VerifIOAdvance struct {
+	Method  string
+	Advance *big.Int
+	Update  bool
+}
+
+// VerifIOMethodAdvances returns the non-empty rows of ioMethodAdvances, in
+// table (token ID) order.
+func VerifIOMethodAdvances() (rows []VerifIOAdvance) {
+	tm := &t.Map{}
+	for i, r := range ioMethodAdvances {
+		if r.advance == nil {
+			continue
+		}
+		rows = append(rows, VerifIOAdvance{
+			Method:  (t.IDPeekU8 + t.ID(i)).Str(tm),
+			Advance: new(big.Int).Set(r.advance),
+			Update:  r.update,
+		})
+	}
+	return rows
+}
